@@ -215,35 +215,63 @@ def ppmd_params(c):
     return order, size
 
 
-def pyppmd_faulty(chain, stream: bytes) -> bool:
-    """True when the third-party PPMd codec, driven directly and alone (no py7zr code involved),
-    fails to round-trip the very byte stream this chain feeds it. Used only to *classify* a
-    violation (mechanism key 'codec-library/pyppmd-roundtrip'), never to excuse one silently."""
+def pyppmd_faulty(chain, stream, block=None) -> bool:
+    """True when the third-party codecs, driven directly and alone (pybcj + pyppmd, no py7zr code),
+    fail to round-trip the very byte stream this chain feeds them, in the very chunks py7zr hands over
+    (each member is read in I/O blocks; the encoders are stateful across chunks). Used only to
+    *classify* a violation (mechanism key 'codec-library/pyppmd-roundtrip'), never to excuse one silently.
+    stream: bytes, or a list of members' bytes (chunk boundaries fall at member boundaries)."""
     pp = [c for c in chain if c["f"] == "PPMD"]
     if not pp:
         return False
+    import bcj
     import pyppmd
 
-    from vf.ref7z import codecs as RC
-
+    members = [stream] if isinstance(stream, (bytes, bytearray)) else list(stream)
+    block = block or (1 << 20)
     front = [c["f"] for c in chain if c["f"] in G.BCJ]
-    if front:
-        kind = {"X86": "x86", "ARM": "arm", "ARMTHUMB": "armt", "POWERPC": "ppc", "SPARC": "sparc"}[front[0]]
-        stream = RC._bcj(kind, stream, True)
+    enc_cls = {"X86": bcj.BCJEncoder, "ARM": bcj.ARMEncoder, "ARMTHUMB": bcj.ARMTEncoder, "POWERPC": bcj.PPCEncoder, "SPARC": bcj.SparcEncoder}
+    dec_cls = {"X86": bcj.BCJDecoder, "ARM": bcj.ARMDecoder, "ARMTHUMB": bcj.ARMTDecoder, "POWERPC": bcj.PPCDecoder, "SPARC": bcj.SparcDecoder}
     order, size = ppmd_params(pp[0])
-    try:
-        e = pyppmd.Ppmd7Encoder(order, size)
-        p = e.encode(stream) + e.flush()
-        d = pyppmd.Ppmd7Decoder(order, size)
-        n = len(stream)
-        out = d.decode(p, n)
-        k = 0
-        while len(out) < n and k < 8:
-            out += d.decode(b"\0" if d.needs_input else b"", n - len(out))
-            k += 1
-        return out != stream
-    except Exception:
-        return True
+    whole = b"".join(members)
+    for chunked in (True, False):
+        try:
+            e = pyppmd.Ppmd7Encoder(order, size)
+            be = enc_cls[front[0]]() if front else None
+            packed = bytearray()
+            pieces = []
+            if chunked:
+                for m in members:
+                    for i in range(0, len(m), block):
+                        pieces.append(m[i : i + block])
+            else:
+                pieces = [whole]
+            for piece in pieces:
+                x = be.encode(piece) if be else piece
+                packed += e.encode(x)
+            if be:
+                packed += e.encode(be.flush())
+            packed += e.flush()
+            d = pyppmd.Ppmd7Decoder(order, size)
+            n = len(whole)
+            out = d.decode(bytes(packed), n)
+            k = 0
+            while len(out) < n and k < 8:
+                out += d.decode(b"\0" if d.needs_input else b"", n - len(out))
+                k += 1
+            if front:
+                bd = dec_cls[front[0]](n)
+                o2 = bd.decode(out)
+                k = 0
+                while len(o2) < n and k < 8:
+                    o2 += bd.decode(b"")
+                    k += 1
+                out = o2
+            if out != whole:
+                return True
+        except Exception:
+            return True
+    return False
 
 
 def rooted_in_rejection(e) -> bool:
